@@ -1271,3 +1271,75 @@ def probe_known(ctx, finding):
     tr = run_impl(sc)
     sigs = {sig for sig, _ in oracle(sc, tr, Fr(0) if sc.get("exact", True) else Fr(1, 10**9))}
     return finding.get("signature") in sigs and sigs <= {finding.get("signature")}
+
+
+# ------------------------------------------------------------------------------------------------
+# limits at the bottom of the range and between the integers (the repository's own tests pass `SIZE / times`, a float):
+# a limit is the number it was given as - 0.5 B/s is a limit, not "off"; 1.9 B/s is not 1 B/s
+# ------------------------------------------------------------------------------------------------
+FRACTIONAL_LIMITS = [0.5, 0.25, 1.5, 1.9, 2.5, 0.999, 1.0, 3.0, 1000.5]
+
+
+async def _fractional_case(loop, limit, via):
+    import aioftp
+
+    if via == "constructor":
+        t = aioftp.Throttle(limit=limit)
+    elif via == "setter":
+        t = aioftp.Throttle()
+        t.limit = limit
+    else:
+        t = aioftp.StreamThrottle.from_limits(limit, None).read
+    t0 = loop.time()
+    t.append(b"x" * 10, t0)
+    await t.wait()
+    return loop.time() - t0, t.limit
+
+
+def fractional_limits(ctx, res):
+    import simnet
+
+    for limit in FRACTIONAL_LIMITS:
+        for via in ("constructor", "setter", "from_limits"):
+            res.cases += 1
+            res.count("fractional_limits")
+            res.distinct.add(("fractional-limit", limit, via))
+            inp = {"kind": "fractional-limit", "limit": limit, "via": via}
+            try:
+                dt, got = simnet.run(_fractional_case, limit, via, wall_limit=30)
+            except BaseException as e:  # noqa
+                res.oracle_failures.append({"input": inp, "what": "a throttle with limit %r (%s) raised %s: %s" % (limit, via, type(e).__name__, e), "signature": "C15:fractional-limit"})
+                continue
+            want = 10 / limit
+            if got != limit or abs(dt - want) > 1e-6 * max(1.0, want):
+                res.oracle_failures.append({"input": inp, "what": "a throttle given the limit %r B/s (%s) reports the limit %r and let 10 bytes wait %.6f s (want %.6f s: bytes / limit)" % (limit, via, got, dt, want),
+                                            "signature": "C15:fractional-limit"})
+
+
+def _with_fractional(corr, srch, rep):
+    def c2(ctx):
+        r = corr(ctx)
+        fractional_limits(ctx, r)
+        return r
+
+    def s2(ctx, prior):
+        r = srch(ctx, prior)
+        fractional_limits(ctx, r)
+        return r
+
+    def r2(ctx, doc):
+        inp = (doc.get("failure") or {}).get("input")
+        if isinstance(inp, dict) and inp.get("kind") == "fractional-limit":
+            from framework import Result as _R
+
+            r = _R()
+            fractional_limits(ctx, r)
+            for f in r.oracle_failures:
+                print(f["what"])
+            return bool(r.oracle_failures)
+        return rep(ctx, doc)
+
+    return c2, s2, r2
+
+
+correspondence, search, replay = _with_fractional(correspondence, search, replay)
